@@ -614,26 +614,26 @@ func writeEvidence(p e.Profile, prop, tier string, seed uint64, a *aggT, rs []wo
 		comp = cp.Components()
 	}
 	cov := map[string]any{
-		"evaluations":         a.Runs,
-		"distinct_nontrivial": len(a.NontrivialSigs),
-		"rule":                rule,
-		"samples":             samples,
-		"runs_per_hour":       perHour,
-		"seeds":               []uint64{seed},
-		"blocks":              a.Blocks,
-		"txs":                 a.Txs,
-		"txs_ok":              a.TxsOK,
-		"sim_time_covered_s":  a.SimTimeS,
-		"faults_fired":        a.Faults,
-		"probes":              a.Probes,
-		"ops":                 a.Ops,
-		"ops_ok":              a.OpsOK,
-		"abstract_states":     len(a.States),
-		"forks":               a.Forks,
-		"oracle_evaluations":  a.Oracle,
+		"evaluations":             a.Runs,
+		"distinct_nontrivial":     len(a.NontrivialSigs),
+		"rule":                    rule,
+		"samples":                 samples,
+		"runs_per_hour":           perHour,
+		"seeds":                   []uint64{seed},
+		"blocks":                  a.Blocks,
+		"txs":                     a.Txs,
+		"txs_ok":                  a.TxsOK,
+		"sim_time_covered_s":      a.SimTimeS,
+		"faults_fired":            a.Faults,
+		"probes":                  a.Probes,
+		"ops":                     a.Ops,
+		"ops_ok":                  a.OpsOK,
+		"abstract_states":         len(a.States),
+		"forks":                   a.Forks,
+		"oracle_evaluations":      a.Oracle,
 		"distinct_run_signatures": len(a.RunSigs),
-		"components":          comp,
-		"known_findings_hit":  known,
+		"components":              comp,
+		"known_findings_hit":      known,
 	}
 	ev := map[string]any{
 		"property_id": prop, "tier": tier, "seed": seed, "level": level, "coverage": cov,
